@@ -71,16 +71,21 @@ void h_crc_buf(void)
    ends in the same state as one call on the whole.  The unbounded statement follows from L2 by the
    index-shift law of folds (the ghost sequence of the second piece is the whole sequence shifted by k);
    that re-indexing step is beyond what the installed SMT back ends instantiate (DESIGN.md C17). */
+uint8_t vg_in_sb[8];
+uint16_t vg_in_sc;
+size_t vg_in_sn, vg_in_sk;
 void h_crc_split(void)
 {
-	uint8_t b[8];
-	uint16_t c0 = nondet_ushort(), c1, c2;
-	size_t n = nondet_size_t(), k = nondet_size_t();
-	__CPROVER_assume(n <= 8 && k <= n);
-	c1 = c0; c2 = c0;
-	lha_crc16_buf(&c1, b, n);
-	lha_crc16_buf(&c2, b, k);
-	lha_crc16_buf(&c2, b + k, n - k);
+	uint16_t c1, c2;
+	size_t j;
+	for (j = 0; j < 8; j++) vg_in_sb[j] = nondet_uchar();
+	vg_in_sc = nondet_ushort();
+	vg_in_sn = nondet_size_t(); vg_in_sk = nondet_size_t();
+	__CPROVER_assume(vg_in_sn <= 8 && vg_in_sk <= vg_in_sn);
+	c1 = vg_in_sc; c2 = vg_in_sc;
+	lha_crc16_buf(&c1, vg_in_sb, vg_in_sn);
+	lha_crc16_buf(&c2, vg_in_sb, vg_in_sk);
+	lha_crc16_buf(&c2, vg_in_sb + vg_in_sk, vg_in_sn - vg_in_sk);
 	__CPROVER_assert(c1 == c2, "C17 split (bounded n<=8): piecewise equals whole");
 	VG_CANARY("crc_split end");
 }
